@@ -1949,7 +1949,8 @@ class MainProvider(ResolverMixin, BaseProvider):
                                                 result_classes,
                                                 result_role):
                         # Test of referemce cln same as source class
-                        if prop.reference_class == classname and \
+                        if prop.reference_class.lower() == \
+                                classname.lower() and \
                                 prop.reference_class in single_use:
                             continue
 
